@@ -351,6 +351,10 @@ func (g *Generator) writeUnwrapImports(gf *protogen.GeneratedFile) {
 	gf.P(`"google.golang.org/protobuf/encoding/protojson"`)
 	gf.P(")")
 	gf.P()
+	// protojson is referenced only by the code paths for message-typed elements and
+	// sibling fields; a file whose unwrap fields are all scalar must still compile.
+	gf.P("var _ = protojson.Marshal")
+	gf.P()
 }
 
 func (g *Generator) generateUnwrapMarshalJSON(gf *protogen.GeneratedFile, containing *UnwrapContainingMessage) {
